@@ -290,6 +290,9 @@ def plan_for_setting(row, tier, seed):
     for fi, frame in enumerate(("rotated", "permuted", "mirrored")):
         cases.append({"number": number, "choice": choice, "D": N, "sites": reps0[:7], "cell": cells[fi % len(cells)], "slab": SLABS[fi % len(SLABS)], "z0": 17,
                       "variant": "frame:" + frame, "frame": frame})
+    # a pseudo-special cell: free lengths a hair off whole numbers, free angles a hair off 90 / 120 / 60 degrees
+    cases.append({"number": number, "choice": choice, "D": N, "sites": reps0[:40], "cell": lattice.pseudo_special_cell(number, choice), "slab": SLABS[1], "z0": 8,
+                  "variant": "pseudo-special-cell"})
     Dg = 12 * 997
     for ci, cell in enumerate(cells):
         cases.append({"number": number, "choice": choice, "D": Dg, "sites": generic_sites(seed + ci, Dg, ops), "cell": cell,
